@@ -141,6 +141,14 @@ func Run(mode string, input string) string {
 		out := []string{}
 		for _, in := range strings.Split(input, ",") { out = append(out, RunShared(in)) }
 		return strings.Join(out, " ; ")
+	case "xlate":
+		// the code-to-symbol translation of this variant, probed on every integer from input to four past the largest token code
+		lo, hi := 0, 0
+		fmt.Sscan(input, &lo)
+		for _, zzk := range []int{%(codes)s} { if zzk > hi { hi = zzk } }
+		out := []string{}
+		for c := lo; c <= hi+4; c++ { if v := translate(c); v != 0 { out = append(out, fmt.Sprint(c, "=", v)) } }
+		return strings.Join(out, " ")
 	case "tracen":
 		// a traced parse during which another parse (traced as well) runs from inside an action
 		f := strings.Split(input, ",")
@@ -219,6 +227,11 @@ function RunFresh(input :string) :string {
 for (const job of %(jobs)s) {
 	if (job[0] == "run") { console.log("run\\t" + job[1] + "\\t" + RunFresh(job[1])) }
 	else if (job[0] == "hist") { console.log("hist\\t" + job[1] + "\\t" + job[1].split(",").map(RunFresh).join(" ; ")) }
+	else if (job[0] == "xlate") {
+		let zzo :string[] = [];
+		for (let c = parseInt(job[1]); c <= Math.max(0, ...[%(codes)s]) + 4; c++) { let v = translate(c); if (v != 0) { zzo.push(c + "=" + v) } }
+		console.log("xlate\\t" + job[1] + "\\t" + zzo.join(" "))
+	}
 }
 '''
 
@@ -314,7 +327,7 @@ def run_i6(name, grammars, jobs, variants=ALL_VARIANTS, vet=False, race=False):
             extra = ['-g', os.path.join(d, 'graph.png')] if vn in ('gu', 'op') else []
             tasks.append((gname, vn, [yaccgo, 'generate', 'go'] + flags + extra + [y, os.path.join(d, 'p.go')]))
         if 'ts' in variants:
-            tj = [[m, p] for (m, p) in jobs.get(gname, []) if m in ('run', 'hist')]
+            tj = [[m, p] for (m, p) in jobs.get(gname, []) if m in ('run', 'hist', 'xlate')]
             y = os.path.join(work, 'g%d.y' % gi)
             open(y, 'w').write(ts_text(g, tj))
             tasks.append((gname, 'ts', [yaccgo, 'generate', 'typescript', y, os.path.join(work, 'g%d.ts' % gi)]))
